@@ -52,15 +52,6 @@ pair_def!(c13_pair_def_inset, |all, limit| TextSelectionOperator::InSet { all, n
 // that records the gap it was asked for and answers " " or "x" according to a per-harness symbolic flag.
 // What is decided: the arithmetic around the lookup (no underflow), that the lookup is made for exactly
 // the gap between the two selections, and that the result is "adjacent, or separated by whitespace only".
-pub(crate) static mut GAP_IS_WS: bool = false;
-pub(crate) static mut GAP_ASKED: Option<(usize, usize)> = None;
-pub(crate) fn gap_stub<'a>(_r: &'a TextResource, offset: &Offset) -> Result<&'a str, StamError> where 'a: 'a {
-    let ws = unsafe { GAP_IS_WS };
-    if let (Cursor::BeginAligned(b), Cursor::BeginAligned(e)) = (offset.begin, offset.end) {
-        unsafe { GAP_ASKED = Some((b, e)); }
-    }
-    Ok(if ws { " " } else { "x" })
-}
 fn d_precedes_ws(a_end: usize, b_begin: usize, ws: bool) -> bool { a_end <= b_begin && (a_end == b_begin || ws) }
 
 macro_rules! pair_ws {
